@@ -487,6 +487,13 @@ def _build_arakawa(w):
         yn, xn = names[kind]
         coords[yn] = xarray.DataArray(q2f(ya), dims=dims[kind], attrs={"units": "degrees_north"})
         coords[xn] = xarray.DataArray(q2f(xa), dims=dims[kind], attrs={"units": "degrees_east"})
+        if w.get("lon_dtype"):
+            # longitudes on whole degrees stored in an integer (or single precision) type, latitudes left as doubles
+            narrow = coords[xn].values.astype(w["lon_dtype"])
+            keep = numpy.isnan(coords[xn].values) if numpy.dtype(w["lon_dtype"]).kind == "f" else numpy.zeros(narrow.shape, bool)
+            if not ((narrow == coords[xn].values) | keep).all():
+                raise ValueError("longitudes are not representable in " + w["lon_dtype"])
+            coords[xn] = xarray.DataArray(narrow, dims=dims[kind], attrs={"units": "degrees_east"})
     if w.get("coords_as", "coords") == "coords":
         ds = xarray.Dataset(coords=coords)
     else:
@@ -511,10 +518,12 @@ def _build_ugrid(w):
     maxn = max(maxn, enc.get("pad_to", 0))
     nface = len(faces); nnode = len(nodes)
     FILL = int(enc.get("fillvalue", 999999))      # e.g. 0 with one-based indexes, -1 with zero-based ones
+    if "index_dtype" in enc and "fillvalue" not in enc:
+        FILL = int(numpy.iinfo(enc["index_dtype"]).max)     # tables stored in a narrow integer type
 
     def table(rows, width, primary_dim, secondary_dim, *, transposed=False, name=None, role=None):
         ragged = any(len(r) < width for r in rows)
-        arr = numpy.full((len(rows), width), FILL, dtype="i4")
+        arr = numpy.full((len(rows), width), FILL, dtype=enc.get("index_dtype", "i4"))
         for r, row in enumerate(rows):
             for c, val in enumerate(row):
                 if val is not None and val >= 0:
@@ -531,7 +540,7 @@ def _build_ugrid(w):
         else:
             data = arr
             if mode == "intfill":
-                attrs["_FillValue"] = numpy.int32(FILL)
+                attrs["_FillValue"] = numpy.dtype(enc.get("index_dtype", "i4")).type(FILL)
         dims = [primary_dim, secondary_dim]
         if transposed:
             data = data.T; dims = dims[::-1]
